@@ -31,6 +31,7 @@ from .common import (
     is_empty_dict,
     is_empty_list,
     is_notify,
+    only_called_from,
     resolve_root,
     self_attr_reads,
 )
@@ -128,7 +129,19 @@ def run(ctx):
         m for m in disp.methods.values()
         if m not in cached and m.name != "__init__" and not m.name.startswith("__")
     ] + list(disp.setters.values())
+    # a private helper reached only from other Dispatcher methods is judged
+    # where it is called (the engine inlines it): its callers may clear the
+    # cache after it returns
+    public = {m for m in entries if not m.name.startswith("_")}
+    callers_ok = public | {m for m in disp.methods.values() if m.name.startswith("__")}
+    helpers = {
+        m for m in entries
+        if m.name.startswith("_") and m not in public and only_called_from(ctx, m, callers_ok)
+    }
     for m in sorted(entries, key=lambda f: f.qualname):
+        if m in helpers:
+            chk.ok("R05.a", m.qualname, m.loc(), "private helper: judged inlined at its call sites")
+            continue
         paths = eng.paths(m, disp)
         n_paths += len(paths)
         bad = False
